@@ -254,6 +254,12 @@ v("C19", "b3-no-vary-on-simple", "break", "middleware/cors/cors.go", "\t\t\tif !
 v("C19", "b4-preflight-falls-through", "break", "middleware/cors/cors.go", "\t\t// Send 204 No Content\n\t\treturn c.SendStatus(fiber.StatusNoContent)", "\t\t// Send 204 No Content\n\t\tif allowOrigin == \"\" {\n\t\t\treturn c.Next()\n\t\t}\n\t\treturn c.SendStatus(fiber.StatusNoContent)", "preflight", "preflight reaches the handler")
 v("C19", "b5-construction-allows-combo", "break", "middleware/cors/cors.go", "\tif cfg.AllowCredentials && allowAllOrigins {\n\t\tpanic(", "\tif cfg.AllowCredentials && allowAllOrigins && cfg.MaxAge < 0 {\n\t\tpanic(", "refuses-credentials-with-all-origins", "credentials with all origins accepted")
 v("C19", "n1-loop-to-slices-contains", "benign", "middleware/cors/cors.go", "\t\t\tfor _, origin := range allowOrigins {\n\t\t\t\tif origin == originHeader {\n\t\t\t\t\tallowOrigin = originHeader\n\t\t\t\t\tbreak\n\t\t\t\t}\n\t\t\t}", "\t\t\tfor idx := range allowOrigins {\n\t\t\t\tif allowOrigins[idx] == originHeader {\n\t\t\t\t\tallowOrigin = originHeader\n\t\t\t\t\tbreak\n\t\t\t\t}\n\t\t\t}", why="index loop")
+v("C19", "b6-suffix-drops-dot", "break", "middleware/cors/cors.go", "origin[:i+3]+origin[i+4:]", "origin[:i+3]+origin[i+5:]", "wildcard-split-offsets", "the stored suffix loses its leading dot: evilexample.com matches *.example.com")
+v("C19", "b7-suffix-offset-on-normalised", "break", "middleware/cors/cors.go", "suffix: normalizedOrigin[i+3:]}", "suffix: normalizedOrigin[i+4:]}", "wildcard-split-offsets", "suffix starts after the dot")
+v("C19", "b8-match-contains", "break", "middleware/cors/utils.go", "strings.HasSuffix(o, s.suffix)", "strings.Contains(o, s.suffix)", "match:requires-HasSuffix", "x.example.com.evil.net matches")
+v("C19", "n4-match-no-length-guard", "benign", "middleware/cors/utils.go", "len(o) >= len(s.prefix)+len(s.suffix) && ", "", why="a prefix ending in :// and a suffix starting with . cannot overlap: the length test is implied")
+v("C19", "n2-match-strictly-longer", "benign", "middleware/cors/utils.go", "len(o) >= len(s.prefix)+len(s.suffix)", "len(o) > len(s.prefix)+len(s.suffix)", why="requiring at least one character for the wildcard allows fewer origins")
+v("C19", "n3-literal-as-constant", "benign", "middleware/cors/cors.go", "if i := strings.Index(origin, \"://*.\"); i != -1 {", "const wildcardMark = \"://*.\"\n\t\tif i := strings.Index(origin, wildcardMark); i != -1 {", why="the literal moved into a named constant")
 
 # ---------------------------------------------------------------- C20
 v("C20", "b1-rewrite-inside-visitor", "break", "middleware/encryptcookie/encryptcookie.go", "\t\t\tif !isDisabled(keyString, cfg.Except) && !isDisabled(keyString, names) {\n\t\t\t\tnames = append(names, keyString)\n\t\t\t}", "\t\t\tif !isDisabled(keyString, cfg.Except) && !isDisabled(keyString, names) {\n\t\t\t\tnames = append(names, keyString)\n\t\t\t} else if !isDisabled(keyString, cfg.Except) {\n\t\t\t\tc.Request().Header.SetCookie(keyString, \"\")\n\t\t\t}", "VisitAllCookie-closure", "by-name rewrite inside the visitor again")
